@@ -1,6 +1,7 @@
 """C01 — generated views report structure state and values as the .emb defines (structural clauses)."""
 from checks.common import Ctx
 from sa.report import Check
+from sa.rules import flow_rules as FLW
 from sa.rules import backend as B
 from sa.rules import bounds_rules as R
 from sa.rules import cpp_rules as C
@@ -56,4 +57,5 @@ def main(tier):
     chk.run("R-SWITCHFIT", B.switchfit, cx.repo, floor=1)
     chk.run("R-CHOICETYPE", B.choicetype, cx.repo, cx.cpp, floor=2)
     chk.run("R-PARAMCOPY", B.paramcopy, cx.repo, cx.templates, floor=3)
+    chk.run("R-LOOPACC", FLW.loopacc, cx.repo, floor=10, modules=("compiler/back_end/cpp/header_generator.py",))
     return chk.finish()
